@@ -144,7 +144,10 @@ public:
                              Scalar tol = 100 * Eigen::NumTraits<Scalar>::dummy_precision())
 
     {
-        m_search_space.initialize_search_space(initial_space);
+        // The Rayleigh-Ritz step assumes an orthonormal basis; a user-supplied guess need not be one
+        Matrix initial_basis = initial_space;
+        twice_is_enough_orthogonalisation(initial_basis);
+        m_search_space.initialize_search_space(initial_basis);
         niter_ = 0;
         for (niter_ = 0; niter_ < maxit; niter_++)
         {
